@@ -4,11 +4,11 @@ import (
 	"bufio"
 	"bytes"
 	"encoding/json"
-	"os"
-	"runtime"
 	"errors"
 	"fmt"
 	"io"
+	"os"
+	"runtime"
 	"strconv"
 	"strings"
 	"sync"
@@ -160,16 +160,17 @@ func statusOf(line string) int {
 
 // Obs is what the harness observed around the real proxy for one case.
 type Obs struct {
-	Handle     string   `json:"handle"` // fwd | connect | err:<class>
-	Addr       string   `json:"addr,omitempty"`
-	User       string   `json:"user,omitempty"`
-	Origin     []*Msg   `json:"origin"` // requests received by the origin (the last may be incomplete)
-	OriginSent [][2]int `json:"origin_sent"`
-	Client     []*Msg   `json:"client"` // responses received by the client (the last may be incomplete)
-	ClientEOF  bool     `json:"client_eof"`
-	ClientSent int      `json:"client_sent"` // number of requests the client wrote completely
-	Hang       bool     `json:"hang,omitempty"`
-	Panic      string   `json:"panic,omitempty"`
+	Handle      string   `json:"handle"` // fwd | connect | err:<class>
+	Addr        string   `json:"addr,omitempty"`
+	User        string   `json:"user,omitempty"`
+	Origin      []*Msg   `json:"origin"` // requests received by the origin (the last may be incomplete)
+	OriginSent  [][2]int `json:"origin_sent"`
+	Client      []*Msg   `json:"client"` // responses received by the client (the last may be incomplete)
+	ClientEOF   bool     `json:"client_eof"`
+	ClientSent  int      `json:"client_sent"`  // number of requests the client wrote completely
+	ClientHeads int      `json:"client_heads"` // number of requests whose head the client wrote completely
+	Hang        bool     `json:"hang,omitempty"`
+	Panic       string   `json:"panic,omitempty"`
 }
 
 type clientState struct {
@@ -362,6 +363,9 @@ func runImpl(c *Case) *Obs {
 			if _, err := cl.Write(head); err != nil {
 				return
 			}
+			obsMu.Lock()
+			obs.ClientHeads = i + 1
+			obsMu.Unlock()
 			if q.WaitContinue {
 				st.mu.Lock()
 				for !st.eof && !(st.finals > i || (st.finals == i && st.interims > 0)) {
